@@ -1,6 +1,6 @@
 """Property id -> suites, assumptions, trusted base."""
 import re
-from . import store_suite, mc_checks, mc_suite, sim_suite, sim_monitors, snap_suite
+from . import store_suite, mc_checks, mc_suite, sim_suite, sim_monitors, snap_suite, c01_suite, py_suite
 
 TRUSTED_BASE = [
     "Lean 4.33.0 kernel (thorough tier: re-checked with leanchecker); axioms per theorem as listed under coverage.axioms (allowed: propext, Classical.choice, Quot.sound)",
@@ -89,6 +89,9 @@ def pred_check(v, tier, seed):
 
 
 PROPS = {
+    "C01": {"ready": True, "replay": c01_suite.replay, "suites": [lambda v, tier, seed: c01_suite.run(v, tier, seed)],
+            "partial": "cross-process determinism of DefaultHasher/Pcg64 and the order of equal-depth start states are observed, not proved; "
+                       "the theorems cover the hash-order independence of dump_events/snapshot and of crash_node"},
     "C04": {"ready": True, "partial": PARTIAL_D1 + "; the inclusion of whole simulated executions (R4) is checked on the implementation, not proved",
             "replay": sim_replay, "suites": [snapshot_check(walk=10, routes=False)]},
     "C05": {"ready": True, "replay": sim_replay,
@@ -105,6 +108,8 @@ PROPS = {
             "partial": "whole-run consistency of logs/counters is judged by the monitor and the bit-exact correspondence; theorems cover the per-send bookkeeping",
             "suites": [sim("sim_logs", "C17", dict(p_fault=0.5, p_crash=0.4, p_link=0.3, nodes=(2, 3), procs=(2, 4)),
                            nontrivial=lambda st: st["received"] and (st["dropped"] or st["crash"]))]},
+    "C18": {"ready": True, "replay": mc_checks.replay, "suites": [lambda v, tier, seed: py_suite.run(v, tier, seed)],
+            "partial": "pickle, deepcopy, PyO3 conversions and JSON text are runtime behaviour covered by the correspondence runs only"},
     "C19": {"ready": True, "replay": mc_checks.replay, "suites": [pred_check],
             "partial": "state_depth_current_run is proved only in its sound half (finding D11); time_limit (wall clock) is outside the model"},
     "C02": {"ready": True, "partial": PARTIAL_D1, "replay": mc_checks.replay,
